@@ -970,7 +970,6 @@ func typeAssert(i *interpreter, instr *ssa.TypeAssert, itf iface) value {
 	return v
 }
 
-
 // callBuiltin interprets a call to builtin fn with arguments args,
 // returning its result.
 func callBuiltin(caller *frame, callpos token.Pos, fn *ssa.Builtin, args []value) value {
@@ -1472,4 +1471,3 @@ func foldLeft(op func(value, value) value, args []value) value {
 	}
 	return x
 }
-
